@@ -1,12 +1,22 @@
 ENGINES = [
     {'name': 'X', 'path': 'lib/xworker.py', 'kind_free_text': 'CrossHair 0.0.110 symbolic execution of the real Python functions (z3 decides every branch), one OS process per condition, vacuity twin per condition, plain-CPython replay of every counterexample',
-     'serves_properties': ['C02', 'C06', 'C09', 'C10', 'C11', 'C13', 'C15', 'C17', 'C19']},
+     'serves_properties': ['C02', 'C06', 'C09', 'C10', 'C11', 'C13', 'C15', 'C16', 'C17', 'C19']},
     {'name': 'Z', 'path': 'lib/zworker.py', 'kind_free_text': 'z3 sequence-theory queries over SHA-1 pre-image terms recorded by executing the real digest code on symbolic strings (lib/zsym.py); sat models replayed on the real functions with the real hashlib',
      'serves_properties': ['C02', 'C03', 'C07']},
 ]
 NOTES = ('Technique family: solver-based checking of the real code. Every result is bounded; bounds, stubs and '
          'assumptions are in evidence/<id>.json and DESIGN.md. Exit 2 of ./check = harness error (never a verdict).')
 CLAIMS = {
+    'C16': dict(
+        engine='X',
+        technique='CrossHair+z3 enumeration of recipe histories / workspace states through the real DevelopDirOracle (sqlite), _BobState.getByNameDirectory and bob clean delete-set code',
+        text='Develop and release mode: for every history of three generations in which an arbitrary subset of three variants of a recipe (plus a second recipe with identical Variant-Ids and a prefix-related name) '
+             'exists, in any traversal order: two steps share a directory only if they are the same (recipe, step kind, Variant-Id) (release: same Variant-Id), a variant that still exists keeps its directory, '
+             'directories lie below the formatter base directory. bob clean (develop): for every combination of existing directories, matching/stale stored digests, dirty sources and flags -s/-f/--dry-run it never '
+             'deletes an up-to-date build/package result or a source workspace of a current package (also when two recipes yield identical packages), and --dry-run deletes nothing.',
+        design_ref='DESIGN.md section 4, C16',
+        note='Trusted: stub packages/steps, dictionary-backed BobState in the clean check. Outside: "a directory handed to a different variant is emptied first" (builder prune branch, part of the C01 world harness), '
+             'release-mode clean, attic mode, external name persisters.'),
     'C19': dict(
         engine='X',
         technique='CrossHair+z3 enumeration of archive contents / histories through the real bob archive clean/find code paths (real grammar, real sqlite index) against a reference retention semantics',
